@@ -14,7 +14,7 @@ import (
 
 func main() {
 	if len(os.Args) < 2 {
-		fmt.Fprintln(os.Stderr, "usage: spdy <frames|conn>")
+		fmt.Fprintln(os.Stderr, "usage: spdy <frames|conn|e2e-smoke>")
 		os.Exit(2)
 	}
 	defer vh.Flush()
@@ -29,6 +29,8 @@ func main() {
 		framesRun()
 	case "conn":
 		connRun()
+	case "e2e-smoke":
+		e2eSmoke()
 	default:
 		fmt.Fprintln(os.Stderr, "unknown subcommand", os.Args[1])
 		vh.Flush()
